@@ -151,6 +151,21 @@ def build_runner():
     open(sp, "w").write(stamp)
 
 
+EXT_TARGET = os.path.join(CACHE, "ext-target")
+PYEXT = os.path.join(CACHE, "pyext")
+
+
+def build_extension():
+    """cargo build -p bourse (the PyO3 extension) from /repo's working tree; importable as <PYEXT>/bourse/core.so"""
+    env = dict(ENV, CARGO_TARGET_DIR=EXT_TARGET)
+    out = sh(["cargo", "build", "-p", "bourse", "--release", "--offline"], cwd=REPO, timeout=1800, check=False, env=env)
+    so = os.path.join(EXT_TARGET, "release", "libbourse.so")
+    if "Finished" not in out or not os.path.exists(so):
+        raise CheckFailure("the Python extension module no longer builds", out[-3000:])
+    os.makedirs(os.path.join(PYEXT, "bourse"), exist_ok=True)
+    shutil.copy(so, os.path.join(PYEXT, "bourse", "core.so"))
+
+
 def build_all(ctx):
     build_harness()
     tr = os.path.join(VERIF, "translators", "run_all.py")
